@@ -10,7 +10,7 @@ from vlib.workers import ALL, WorkerDied, WorkerSet
 PROPERTY = "C07"
 LEVEL = "exploration"
 RACE_INTERPS = ALL
-RULE = ("(Every other shard runs its interpreters under PYTHONOPTIMIZE=1 - python -O, assert statements compiled away - and the stress run is done both ways.) Blocked leg (CPython 3.9-3.12): Hypothesis-generated thread bodies of call depth 1..6 with 0-3 nested with blocks "
+RULE = ("(Scripts d and e - a loop whose gates sit in a C-level and in a Python-level call at different stack depths; sibling with blocks in a generator the thread iterates - are also explored with two moves per schedule, and for the inspect API the raced snapshot must equal one of the snapshots taken while the thread is blocked at a gate. Finished: also a foreign thread's dummy Thread object whose ident a new thread has taken.) (Every other shard runs its interpreters under PYTHONOPTIMIZE=1 - python -O, assert statements compiled away - and the stress run is done both ways.) Blocked leg (CPython 3.9-3.12): Hypothesis-generated thread bodies of call depth 1..6 with 0-3 nested with blocks "
         "per frame (single and multi-item, inside try/finally), each level calling inward by a plain / returned / *args / **kwargs call, (plus one thread whose stack is 300 frames deeper than the recursion limit in force when it is inspected), the thread being a Thread(target=...), a Thread subclass, a Timer or a thread started through _thread (dummy Thread object), blocked on an Event at the innermost level or with the innermost level itself blocked in a C callable (lock.acquire, same four call forms); oracle = shadow call "
         "log: harness frames of extract(thread) equal it outermost first with contexts equal to each frame's managers, all "
         "frames equal the thread's f_back chain, threading internals hidden; unstarted / finished threads give no frames and no "
@@ -35,7 +35,11 @@ ASSUMPTIONS = [
     "bytecode are not explored; the stress run is a smoke test",
 ]
 
-SCRIPTS = {"a": 9, "b": 10, "c": 8}   # script -> number of gate advances worth exploring
+SCRIPTS = {"a": 9, "b": 10, "c": 8, "d": 8, "e": 10}   # script -> number of gate advances worth exploring
+# scripts whose frame comes back to a position it has been at before (loops): also explored with TWO moves, k1 gates at one
+# preemption point and k2 more at a later one
+PAIR_SCRIPTS = ("d", "e")
+PAIRS = [[1, 1], [1, 2], [2, 1], [1, 3], [2, 2]]
 APIS = ["thread", "ctx", "since", "inspect"]
 
 
@@ -105,7 +109,8 @@ def check_cells(ws, cells, ks, out):
     for interp in RACE_INTERPS:
         for cell in cells:
             try:
-                res = ws[interp].request({"op": "threads.race", "cells": [cell], "ks": ks}, timeout=600)
+                res = ws[interp].request({"op": "threads.race", "cells": [cell], "ks": ks,
+                                          "pairs": PAIRS if cell[0] in PAIR_SCRIPTS else None}, timeout=600)
             except WorkerDied as ex:
                 viols.append({"desc": "interpreter %s DIED (exit %r) while racing: cell %r" % (interp, ex.returncode, cell),
                               "interp": interp, "cell": cell})
@@ -154,6 +159,23 @@ def shard_body(arg):
                 if res["obs"]:
                     out.violation("%s on %s: %r" % (res["obs"][0]["kind"], interp, res["obs"][0]), case, interp)
             out.note_case({"deep_thread": True}, True, classes=["blocked", "blocked.deeper_than_the_recursion_limit"], n_eval=len(ALL))
+        if arg.get("deep"):
+            case = {"finished_foreign_thread": True}
+            reused = 0
+            for interp in ALL:
+                for _rep in range(3):
+                    try:
+                        res = ws[interp].request({"op": "threads.finished_foreign"})
+                    except WorkerDied as ex:
+                        out.violation("interpreter %s died (exit %r)" % (interp, ex.returncode), case, interp)
+                        break
+                    out.per_interp[interp] += 1
+                    reused += res["stats"]["ident_reused"]
+                    if res["obs"]:
+                        out.violation("%s on %s: %r" % (res["obs"][0]["kind"], interp, res["obs"][0]), case, interp)
+                        break
+            out.extra["finished_foreign_thread.ident_reused"] = reused
+            out.note_case(case, reused > 0, classes=["finished.foreign_thread_whose_ident_was_reused"], n_eval=3 * len(ALL))
         fail = hyp_search(bodies(), lambda lv: check_blocked(ws, ALL, lv, out), seed=arg["seed"], max_examples=arg["n"],
                           shrink=arg["shrink"])
         if fail:
@@ -229,6 +251,18 @@ def replay_deep(ctx, data):
 def replay(ctx, data):
     if data.get("case", {}).get("deep_thread"):
         return replay_deep(ctx, data)
+    if data.get("case", {}).get("finished_foreign_thread"):
+        out = Outcome()
+        interps = [data["interp"]] if data.get("interp") in ALL else ALL
+        with WorkerSet(interps, hooks=True, timeout=600) as ws:
+            for interp in interps:
+                for _rep in range(3):
+                    res = ws[interp].request({"op": "threads.finished_foreign"})
+                    out.note_case(data["case"], True)
+                    if res["obs"]:
+                        out.violation("%s on %s: %r" % (res["obs"][0]["kind"], interp, res["obs"][0]), data["case"], interp)
+                        break
+        return out
     out = Outcome()
     case = data["case"]
     with WorkerSet(ALL, hooks=True, timeout=600, extra_env=OPT_ENV if case.get("optimize") else None) as ws:
